@@ -331,7 +331,16 @@ pub fn run(cases: Vec<(String, Value)>, max_fail: usize, opts: &HashMap<String, 
         let mut rng = Rng::new(o.seed ^ fxhash(case.to_string().as_bytes()));
         let mut baseline: Option<Vec<Value>> = None;
         for (ci, writes) in chunkings(&per_msg, &o.chunk, &mut rng).into_iter().enumerate() {
-            let delay = if o.chunk == "rand" && ci % 2 == 1 { Some(Duration::from_micros(300)) } else { None };
+            // without a pause the pipe coalesces consecutive writes and the server never sees the segmentation
+            let delay = if o.chunk == "rand" && ci % 2 == 1 {
+                Some(Duration::from_micros(300))
+            } else if o.chunk == "split2" {
+                Some(Duration::from_micros(1500))
+            } else if o.chunk.starts_with("bytes") {
+                Some(Duration::from_micros(150))
+            } else {
+                None
+            };
             let r = run_session(&o.exe, &writes, delay, o.bound, None);
             out.evals += 1;
             let ctx = json!({"chunking": o.chunk, "variant": ci, "nwrites": writes.len(),
